@@ -331,7 +331,12 @@ def run_config(desc, cfg, rtol=1e-9):
     def fail(kind, **kw):
         rec['fails'].append(dict(kind=kind, **jsonable(kw)))
 
-    base_items = list(items) if items is not None else list(_default_items(desc))
+    if items is not None:
+        base_items = list(items)
+    else:
+        # callbacks argument not given: what the class enables by default is read off a fresh object (public
+        # parameter); whether that is the documented default is the model's business (table `defaultCallbacks`)
+        base_items = [str(c) for c in getattr(pygam, ctor)(**extra).callbacks]
     has_probe = any((not isinstance(it, str)) and it[1] == 'probe' for it in base_items)
     a_items = base_items if has_probe else base_items + [['user', 'probe', 'probe']]
     probe_name = [it[2] for it in a_items if not isinstance(it, str) and it[1] == 'probe'][0]
@@ -703,6 +708,8 @@ def run_group(args):
     rng = random.Random('c20-group-%s-%s' % (seed, desc['gseed']))
     # reference run: never stops on tol (diff < 0 is never true), probe only
     ref = run_config(desc, dict(max_iter=30, tol=f2b(0.0), items=[['user', 'probe', 'probe']], user='probe', tolmode='ref'))
+    if ref['fails'] and not any(f['kind'] == 'fit raised' for f in ref['fails']):
+        ref['fails'] = []          # tol = 0 is outside the property's domain: the run only supplies the diff sequence
     out = [ref]
     if ref.get('skipped') or 'diffs' not in ref:
         return out
@@ -724,11 +731,11 @@ def descs_for(ctx):
     rng = ctx.subrng('groups')
     descs = []
     labels = list(CLASSES)
-    reps = 1 if quick else 6
+    reps = 1 if quick else 16
     g = 0
     for rep in range(reps):
         for lab in labels:
-            for terms in (TERMS if not quick else [rng.choice(TERMS[:2]), rng.choice(TERMS[2:])]):
+            for terms in TERMS:
                 wm = rng.choice(WEIGHTS) if rep or terms != 'lin' else 'none'
                 descs.append(dict(cls=lab, terms=terms, n=rng.randint(30, 80), weights=wm, gseed='%d-%d' % (ctx.seed, g)))
                 g += 1
@@ -756,7 +763,7 @@ def stream_trace(ctx, pool, lits):
     ctx.stream(st, 'fits of every model class x callbacks x max_iter x tol: iterations, stdout, statistics_, logs_ (keys, lengths, '
                    'contents) and coef_ vs the Lean model replayed on the recorded diffs; symbols resolved with NumPy')
     descs = descs_for(ctx)
-    n_cfg = 10 if ctx.tier == 'quick' else 40
+    n_cfg = 24 if ctx.tier == 'quick' else 40
     groups = pool.map(run_group, [(d, n_cfg, lits, ctx.seed) for d in descs], chunksize=1)
     ops, index = [], []
     for recs in groups:
@@ -827,32 +834,44 @@ def stream_refit(ctx, lits):
                 break
             logs = dict(gam.logs_)
             obs = observe(gam, out, 'probe')
-            new_ends = [e for e in logs['probe'][seen.get('probe', 0):] if e['h'] == 'e']
-            new_starts = [e for e in logs['probe'][seen.get('probe', 0):] if e['h'] == 's']
+            pr = logs.get('probe', [])
+            # entries of this fit: from the last start-hook entry with loop index 0 on (works whether a refit
+            # appends to logs_ -- what the code does, and the model says -- or would start a new log)
+            i0 = max([i for i, e in enumerate(pr) if e['h'] == 's' and e['k'] == 0], default=len(pr))
+            new_ends = [e for e in pr[i0:] if e['h'] == 'e']
+            new_starts = [e for e in pr[i0:] if e['h'] == 's']
             k = len(new_ends)
             diffs = [f2b(e['diff']) for e in new_ends]
-            old = ','.join('%s*%d' % (a, b) for a, b in sorted(seen.items()) if b) or '-'
-            # oracle: old entries untouched, appended hooks x k, loop index restarted at 0
             bad = None
-            for key, cnt in seen.items():
-                if prev_obs['logs'][key] != obs['logs'][key][:cnt]:
-                    bad = 'entries of the previous fit changed under key %s' % key
-            for key in logs:
+            kept = {}
+            for key in set(logs) | set(seen):
                 per = 2 if key == 'probe' else 1
-                if len(logs[key]) != seen.get(key, 0) + per * k:
-                    bad = 'key %s: %d entries after refit, expected %d + %d x %d' % (key, len(logs[key]), seen.get(key, 0), per, k)
-            if [e['k'] for e in new_ends] != list(range(k)) or not (1 <= k <= mi):
-                bad = 'loop index / iteration count of the refit'
-            if (out == 'did not converge\n') != (not (b2f(diffs[-1]) < tol)):
+                kept[key] = len(logs.get(key, [])) - per * k
+            modes = set()
+            for key, kp in kept.items():
+                if kp == seen.get(key, 0):
+                    modes.add('appended' if kp else 'fresh')
+                elif kp == 0:
+                    modes.add('reset')
+                else:
+                    bad = 'key %s: %d entries after the fit, %d before, %d iterations' % (key, len(logs.get(key, [])), seen.get(key, 0), k)
+            if len(modes - {'fresh'}) > 1:
+                bad = 'keys disagree on whether old entries are kept: %s' % sorted(kept.items())
+            for m_ in modes:
+                ctx.count('log entries of earlier fits', m_)
+            old = ','.join('%s*%d' % (a, b) for a, b in sorted(kept.items()) if b > 0) or '-'
+            if len(new_starts) != k or [e['k'] for e in new_ends] != list(range(k)) or not (1 <= k <= mi):
+                bad = 'loop index / iteration count of the refit: %d start, %d end entries, max_iter %d' % (len(new_starts), k, mi)
+            elif (out == 'did not converge\n') != (not (b2f(diffs[-1]) < tol)):
                 bad = 'non-convergence report of the refit'
-            if not obs['stats']:
+            elif not obs['stats']:
                 bad = 'statistics_ not populated after refit'
             sig = dict(cls=lab, fit=r, k=k, max_iter=mi, tol=f2b(tol), items=json.dumps(sub), g=desc['gseed'])
             ctx.case(st, sig, nontrivial=(r > 0), sample=dict(cls=lab, fit=r, k=k, old=old))
             ctx.count('refit number', r)
             if bad:
                 ctx.fail(st, dict(stream=st, cls=lab, kind=bad.split(':')[0][:40]), dict(desc=desc, cfg=cfg, fit=r), observed=bad,
-                         expected='a refit appends hooks x iterations entries and leaves earlier entries alone', oracle='log lengths / identity of old entries')
+                         expected='every fit adds hooks x iterations entries, reports non-convergence iff last diff >= tol, sets statistics_', oracle='logs_ / stdout / statistics_ after each of several fits of one object')
                 break
             # material for the model: trajectory of this fit
             rec = dict(k=k, coef_in=[np.asarray(e['coef']).ravel().tolist() for e in new_starts],
@@ -863,7 +882,7 @@ def stream_refit(ctx, lits):
                 rec['dev_exp'].append(np_deviance(dist, y[mask], np.asarray(e['mu'])))
                 rec['acc_exp'].append(float(np.mean(y[mask] == (np.asarray(e['mu']) > 0.5))))
             ops.append(fit_op(desc, cfg, model_items(pygam, items), diffs, old=old))
-            meta.append((rec, obs, dict(seen), prev_obs['logs'] if r else None, dict(desc=desc, cfg=cfg, fit=r)))
+            meta.append((rec, obs, dict(seen), prev_obs['logs'] if (r and 'appended' in modes) else None, dict(desc=desc, cfg=cfg, fit=r)))
             seen = {key: len(v) for key, v in logs.items()}
             prev_obs = obs
     outs = ctx.driver.run(ops)
@@ -1013,9 +1032,9 @@ def stream_bind(ctx):
             ctx.disagree(st, dict(hasC=hasC, hook=hook, names=names), impl, dict(bind=b_out, fit=f_out[:80]), 'binding outcome differs')
         elif impl == 'ok':
             n = len(dict(g.logs_).get('dyn', []))
-            if n != len(dict(g.logs_)['diffs']):
+            if n != len(dict(g.logs_).get('diffs', [])):
                 ctx.fail(st, dict(stream=st, kind='user hook entries'), dict(hasC=hasC, hook=hook, names=names), observed=n,
-                         expected=len(dict(g.logs_)['diffs']), oracle='one entry per iteration for a one-hook user callback')
+                         expected=len(dict(g.logs_).get('diffs', [])), oracle='one entry per iteration for a one-hook user callback')
     # a hook with a local variable: co_varnames contains the local, so the callback is rejected (suspected defect)
     cb = make_hook_callback(pygam, 'lv', None, ['diff'], local=('on_loop_end', 'twice'))
     g = pygam.LinearGAM(pygam.l(0) + pygam.l(1), max_iter=2, callbacks=[cb])
@@ -1066,12 +1085,23 @@ def run(ctx):
     ctx.assumptions.append('data sets on which pyGAM reports a numerical breakdown (OptimizationError / LinAlgError / NaN in QR) are skipped and counted')
     lits = harvest_literals(pygam)
     ctx.extra['harvested_literals'] = lits
-    stream_ctor(ctx)
-    stream_bind(ctx)
-    stream_invalid(ctx)
-    stream_refit(ctx, lits)
+    guarded(ctx, stream_ctor)
     with multiprocessing.get_context('fork').Pool(min(16, os.cpu_count() or 1)) as pool:
-        stream_trace(ctx, pool, lits)
+        guarded(ctx, stream_trace, pool, lits)
+    guarded(ctx, stream_refit, lits)
+    guarded(ctx, stream_bind)
+    guarded(ctx, stream_invalid)
+
+
+def guarded(ctx, f, *a):
+    """once a confirmed failing input exists, a later stream that trips over the same breakage must not turn the
+    verdict into an infrastructure error"""
+    try:
+        f(ctx, *a)
+    except Exception as e:  # noqa
+        if not ctx.failing:
+            raise
+        ctx.count('stream aborted after a confirmed failing input', '%s: %s' % (f.__name__, type(e).__name__))
 
 
 def replay(ctx, rp):
